@@ -84,7 +84,10 @@ def run(ctx):
 
 
 # sensitivity pack (thorough tier): each seeded edit must be reported by the named rule instance
-MUTANTS = [{'name': 'edict-output-guard-dropped', 'file': 'crates/ordinals/src/edict.rs', 'old': '    if output > u32::try_from(tx.output.len()).unwrap() {\n      return None;\n    }\n', 'new': '', 'expect': ('R16.2', 'Edict::from_integers', 'Some only under')}]
+MUTANTS = [
+  {'name': 'seeded-C16-a', 'patch': 'C16-a/patch.diff', 'expect': ('R16.3', 'index_utxo_entries', 'index_addresses = true')},
+  {'name': 'seeded-C16-b', 'patch': 'C16-b/patch.diff', 'expect': ('R16.4', 'Updater::commit', 'lockstep')},
+{'name': 'edict-output-guard-dropped', 'file': 'crates/ordinals/src/edict.rs', 'old': '    if output > u32::try_from(tx.output.len()).unwrap() {\n      return None;\n    }\n', 'new': '', 'expect': ('R16.2', 'Edict::from_integers', 'Some only under')}]
 
 
 # behaviour-preserving edits (thorough tier): the rules must stay silent on every one of them
